@@ -211,9 +211,19 @@ def check_rs(spec):
 
     theta, eps, w = spec["theta"], spec["eps"], specs.wire(spec["wire"])
     op = getattr(qp, spec["gate"])(theta, wires=w)
-    ops = list(qp.ops.rs_decomposition(op, eps))
     feats = {"fn": "rs", "gate": spec["gate"], "eps_below_1e-7": eps < 1e-7, "eps_below_3e-7": eps < 3e-7, "fam": spec["fam"]}
     sig = "rs:eps<1e-7" if eps < 1e-7 else "rs"
+    try:
+        ops = list(qp.ops.rs_decomposition(op, eps))
+    except (ZeroDivisionError, ValueError, OverflowError) as e:
+        from pv.engine import _origin
+
+        origin, where = _origin(e.__traceback__)
+        if origin != "sut":
+            raise
+        # arithmetic breakdown inside the grid-problem solver: carries the input class (eps regime) so that it can be told apart
+        raise Viol("unexpected-exception", f"{type(e).__name__}: {e} in rs_decomposition({op}, {eps})", sig=f"{type(e).__name__}@{where}",
+                   features={**feats, "exc": type(e).__name__, "where": where}) from None
     if not ops or ops[-1].name != "GlobalPhase" or any(o.name == "GlobalPhase" for o in ops[:-1]):
         raise Viol("phase-last", f"rs: {[o.name for o in ops][-3:]}", sig=sig, features=feats)
     _gate_set(ops, [w], feats, sig, single=True)
